@@ -222,6 +222,15 @@ Theorem C11_timedtask_teardown_holds_except : forall N npool rs prog s s',
 Proof. exact timedtask_teardown_except_proof. Qed.
 Print Assumptions C11_timedtask_teardown_holds_except.
 
+(* a second closure use-after-free, without the destructor (C26_observed_false_return_frees_functor_in_use): timesToRun 2,
+   two pool threads, the first invocation returns false: the wrapper's func = {} frees the closure that the scheduler role
+   is executing.  Not part of any covered mechanism; reproduced under ASan (finding C26-false-return-func-uaf) *)
+Theorem C11_timedtask_false_return_uaf_refuted :
+  exists s, reach TimedTaskModel.step (TimedTaskModel.init 2 2 [false] []) s /\
+            TimedTaskModel.dtor_ret (TimedTaskModel.g s) = false /\ 0 < TimedTaskModel.uaf (TimedTaskModel.g s).
+Proof. exact timedtask_false_return_uaf_proof. Qed.
+Print Assumptions C11_timedtask_false_return_uaf_refuted.
+
 (* ---- arithmetic UB (C15, C17): staticChunkSize(ssize_t items, ssize_t chunks) as REGENERATED from the source: in C17's
    domain the divisor is non-zero and every intermediate of the signed arithmetic is representable (no division by zero,
    no signed overflow); for_each never passes a zero chunk count (the former division by zero, C15) *)
@@ -259,20 +268,8 @@ Theorem C11_refuted : ~ C11_full_statement.
 Proof. exact modelled_full_refuted. Qed.
 Print Assumptions C11_refuted.
 
-(* parts of the library for which no memory-safety statement can even be written here (no lifetime / ownership model) *)
-Local Open Scope string_scope.
-Definition C11_not_covered : list string :=
-  ["ThreadPool / TaskSet / ConcurrentTaskSet: lifetime of queued OnceFunctions and their payloads (incl. the cancelled-task skip path task_set_impl.h:117), PerThreadInfo, wake state";
-   "pipeline: stage buffers, discard path after an exception (pipeline_impl.h:154), OpResult payloads in flight";
-   "parallel_for / for_each: closures, per-thread states, exception propagation";
-   "Graph / Subgraph: node functor buffers, SubgraphT::clear, BiProp sets";
-   "Future: then-chains, result storage and exception_ptr (only the reference count is modelled)";
-   "TimedTask: everything except func teardown; the false-return wrapper path is covered by C26's second finding only";
-   "moodycamel::ConcurrentQueue (third-party): raw pointer arithmetic, block recycling (enters C41 as a hypothesis)";
-   "ResourcePool, AsyncRequest, RWLock, Latch, CompletionEvent: no heap ownership modelled";
-   "allocation failure (bad_alloc) paths, stack exhaustion (C46 covers the dispenso-induced depth only)";
-   "SmallBufferAllocator thread-exit path and global teardown order"].
-Local Close Scope string_scope.
+(* parts of the library for which no memory-safety statement can even be written here (Model/C11Check.v) *)
+Definition C11_not_covered : list string := not_covered_names.
 
 (* the sanitizer judge (search ladder step 5): clean exactly when there is no report; a suppressed report is a
    use-after-free of a TimedTask case that C26's own judge placed inside one of its finding domains *)
@@ -281,7 +278,7 @@ Proof. exact judge_san_clean_iff. Qed.
 Print Assumptions C11_judge_clean_iff_no_report.
 
 Theorem C11_judge_suppression_within_c26_domains : forall r, judge_san r = 4 \/ judge_san r = 5 ->
-  fst (fst r) = H_TIMEDTASK /\ snd (fst r) = K_UAF /\ (Z.testbit (snd r) 1 = true \/ Z.testbit (snd r) 2 = true).
+  fst (fst r) = H_TIMEDTASK /\ snd (fst r) = K_UAF /\ (Z.testbit (snd r) 1 = true \/ Z.testbit (snd r) 3 = true).
 Proof. exact judge_san_known_sound. Qed.
 Print Assumptions C11_judge_suppression_within_c26_domains.
 
@@ -296,6 +293,6 @@ Example C11_nonvacuous :
                          n_ctor (OpResultModel.st_led s), n_dtor (OpResultModel.st_led s), live_count (OpResultModel.st_led s)))
               (OpResultModel.run (OpResultModel.init 3) ops) = Some (true, true, 9, 9, 0)) /\
   GenChunk.gen_staticChunkSize 10 4 = (2, 3) /\
-  map judge_san [(1, 0, 0); (4, 1, 0); (6, 7, 0); (11, 2, 2); (11, 2, 4); (11, 2, 1); (11, 1, 2); (3, 2, 2)] = [0; 2; 2; 4; 5; 2; 2; 2] /\
+  map judge_san [(1, 0, 0); (4, 1, 0); (6, 7, 0); (11, 2, 2); (11, 2, 8); (11, 2, 12); (11, 2, 4); (11, 2, 1); (11, 1, 2); (3, 2, 2)] = [0; 2; 2; 4; 5; 5; 2; 2; 2; 2] /\
   List.length C11_covered_mechanisms = 15%nat.
 Proof. vm_compute. repeat split; reflexivity. Qed.
